@@ -222,8 +222,16 @@ theorem C15_interval (names : List Text) (N : Int) (b : Bool) (x y : Num)
     | flt f => simp [Num.isFloat] at hz
   obtain ⟨tx, h1, r1⟩ := key x hx
   obtain ⟨ty, h2, r2⟩ := key y hy
+  -- exact bounds have one rendering only: the second rendering of fix d33389f (all digits for FLOAT bounds) is the same text
+  have full : ∀ z : Num, z.isFloat = false → stringifyNumFull N z = stringifyNum N false z := by
+    intro z hz
+    cases z with
+    | int n => rfl
+    | frac q => rfl
+    | flt f => simp [Num.isFloat] at hz
   refine ⟨tx, ty, h1, h2, r1, r2, ?_, ?_⟩
-  · simp [stringify, h1, h2, bind, Except.bind]
+  · simp only [stringify, h1, h2, bind, Except.bind, full x hx, full y hy]
+    split <;> rfl
   · simp [displayResult, stringify, h1, h2, bind, Except.bind]
 
 /-! ### non-vacuity -/
